@@ -63,6 +63,7 @@ class Collector(ast.NodeVisitor):
         self.stack.pop()
 
     def visit_Compare(self, node):
+        self.py_compare(node)
         if len(node.ops) == 1 and type(node.ops[0]) in CMP_SWAP:
             l, r = self.text(node.left), self.text(node.comparators[0])
             if l is not None and r is not None:
@@ -85,6 +86,39 @@ class Collector(ast.NodeVisitor):
                 self.add(node, f"{l} {new} {r}", f"`{'and' if new == 'or' else 'or'}` -> `{new}`")
                 self.add(node, l, "drop the second operand of the boolean")
         self.generic_visit(node)
+
+    def py_compare(self, node):
+        """Python-specific slips: `x is None` -> `not x`, `x is not None` -> `x` (truthiness instead of identity: 0, 0.0, [] and '' become None-like),
+        `a == b` -> `a is b`."""
+        if len(node.ops) != 1:
+            return
+        l, r = self.text(node.left), self.text(node.comparators[0])
+        if l is None or r is None:
+            return
+        o = node.ops[0]
+        is_none = isinstance(node.comparators[0], ast.Constant) and node.comparators[0].value is None
+        if isinstance(o, ast.Is) and is_none:
+            self.add(node, f"(not {l})", f"PY `{l} is None` -> `not {l}`")
+        elif isinstance(o, ast.IsNot) and is_none:
+            self.add(node, f"bool({l})", f"PY `{l} is not None` -> truthiness of `{l}`")
+        elif isinstance(o, ast.Eq) and not isinstance(node.comparators[0], ast.Constant) and not isinstance(node.left, ast.Constant):
+            self.add(node, f"{l} is {r}", f"PY `{l} == {r}` -> `is`")
+        elif isinstance(o, ast.NotEq) and not isinstance(node.comparators[0], ast.Constant) and not isinstance(node.left, ast.Constant):
+            self.add(node, f"{l} is not {r}", f"PY `{l} != {r}` -> `is not`")
+
+    def py_shared_state(self, node):
+        """`self.x = []` / `{}` / `set()` / `dict()` / `list()` / `OrderedDict()` in a method: one container for the whole process (what a class-level
+        attribute or a mutable default argument gives)."""
+        if len(node.targets) != 1 or not isinstance(node.targets[0], ast.Attribute) or node.lineno != node.end_lineno:
+            return
+        v = node.value
+        empty = (isinstance(v, (ast.List, ast.Dict)) and not (getattr(v, "elts", None) or getattr(v, "keys", None))) or \
+                (isinstance(v, ast.Call) and not v.args and not v.keywords and self.text(v.func) in ("set", "dict", "list", "OrderedDict", "collections.OrderedDict"))
+        if not empty:
+            return
+        t = self.text(v)
+        key = f"_mut_{'_'.join(self.stack)}_{node.lineno}"
+        self.add(v, f'__import__("builtins").__dict__.setdefault("{key}", {t})', f"PY shared state: `{self.text(node)[:60]}` becomes one container per process")
 
     def visit_UnaryOp(self, node):
         if isinstance(node.op, ast.Not):
@@ -116,6 +150,7 @@ class Collector(ast.NodeVisitor):
         self.generic_visit(node)
 
     def visit_Assign(self, node):
+        self.py_shared_state(node)
         if node.lineno == node.end_lineno and len(node.targets) == 1 and isinstance(node.targets[0], (ast.Attribute, ast.Subscript)):
             self.add(node, "pass", f"delete the assignment `{self.text(node)[:60]}`")
         self.generic_visit(node)
@@ -175,6 +210,7 @@ def main():
     ap.add_argument("--out", default="/tmp/mutcamp")
     ap.add_argument("--keep", action="store_true")
     ap.add_argument("--props", default="ALL")
+    ap.add_argument("--ops", default="", help="'py': only the Python-specific operators (descriptions starting with PY)")
     a = ap.parse_args()
     scratch = os.path.join(a.out, "repo")
     vout = os.path.join(a.out, "verif-out")
@@ -188,6 +224,8 @@ def main():
     for f in sorted(files):
         try:
             for m in mutants_of(os.path.join(scratch, f)):
+                if a.ops == "py" and ": PY " not in m[4]:
+                    continue
                 allm.append((f, m))
         except SyntaxError as e:
             print("skip", f, e)
